@@ -303,22 +303,29 @@ def run(ctx):
 
 
 def positive_control(ctx):
-    """one seeded violation per run (in memory, nothing written): the getter rule must fire when the class / proto
-    slots of method_id_item are swapped"""
+    """one seeded violation per run (in memory, nothing written): the getter rule must fire when the first two
+    struct slots of an id item are swapped"""
     m = ctx.mod(DEX)
-    undo = _swap_targets(m.func("MethodIdItem.__init__").node, lambda n: True)
-    ctx.require(undo is not None, "positive control: MethodIdItem.__init__ has no tuple-unpacking assignment to seed")
-    try:
-        s = Sink(ctx.repo)
-        md = Model(s)
+    seeds = [("MethodIdItem", "get_class_idx"), ("FieldIdItem", "get_class_idx"), ("ClassDefItem", "get_class_idx"),
+             ("DalvikCode", "get_registers_size"), ("TryItem", "get_start_addr"), ("ProtoIdItem", "get_shorty_idx")]
+    for cname, g in seeds:
+        f = m.functions.get("%s.__init__" % cname)
+        undo = _swap_targets(f.node, lambda n: True) if f is not None else None
+        if undo is None:
+            continue
         try:
-            check_getter(s, md, "MethodIdItem", "get_class_idx", GETTERS["MethodIdItem"]["get_class_idx"], {})
-        except AnalysisError:
-            pass
-    finally:
-        undo()
-    ctx.ob("positive-control", "seeded slot swap in MethodIdItem", bool(s.findings), "getter rule fires on the seeded violation")
-    ctx.require(s.findings, "positive control did not fire: the getter rule no longer detects a swapped struct slot")
+            s = Sink(ctx.repo)
+            md = Model(s)
+            try:
+                check_getter(s, md, cname, g, GETTERS[cname][g], {})
+            except AnalysisError:
+                pass
+        finally:
+            undo()
+        ctx.ob("positive-control", "seeded slot swap in %s" % cname, bool(s.findings), "getter rule fires on the seeded violation")
+        ctx.require(s.findings, "positive control did not fire: the getter rule no longer detects a swapped struct slot in %s" % cname)
+        return
+    raise AnalysisError("positive control: no item constructor with a tuple-unpacking assignment left to seed")
 
 
 def core(ctx):
